@@ -112,6 +112,15 @@ TypeHasRefusal(T0, depth) ==
          [] OTHER -> FALSE
 
 \* types with hand-written Fold methods have no unfolding counterpart: no round trip is owed
+\* member names a struct target answers to (inlined structs contribute theirs)
+RECURSIVE MemberNames(_)
+MemberNames(T) ==
+  FlattenSeq([j \in 1..Len(T.f) |->
+     LET f == T.f[j] IN
+     IF Skipped(f) THEN <<>>
+     ELSE IF IsInline(f) THEN (IF Resolve(f.t).k = "struct" THEN MemberNames(Resolve(f.t)) ELSE <<>>)
+     ELSE <<FName(f)>>])
+HasDupNames(T) == LET n == MemberNames(T) IN \E a, b \in 1..Len(n) : a # b /\ n[a] = n[b]
 RECURSIVE HasCustomFolder(_, _), UnfoldMayRefuse(_, _)
 HasCustomFolder(T, depth) ==
   IF depth = 0 THEN FALSE
@@ -125,6 +134,7 @@ UnfoldMayRefuse(T0, depth) ==
   LET T == Resolve(T0) IN
   IF depth = 0 THEN FALSE
   ELSE CASE T.k = "array" -> TRUE
+         [] T.k = "struct" /\ HasDupNames(T) -> TRUE        \* two members of the same name: refused when the target is set
          [] T.k \in {"ptr", "slice", "map"} -> UnfoldMayRefuse(T.e[1], depth - 1)
          [] T.k = "struct" -> \E j \in 1..Len(T.f) :
                ~Skipped(T.f[j]) /\ ((IsInline(T.f[j]) /\ Resolve(T.f[j].t).k # "struct") \/ UnfoldMayRefuse(T.f[j].t, depth - 1))
